@@ -1,8 +1,12 @@
 ---------------------------- MODULE TraceImporter ----------------------------
 (* impl -> spec for C19: recorded runs of REAL scenarios against derived        *)
 (* importer databases are validated against Importer.tla.  The first record of  *)
-(* a trace is the configuration (agents, which are imported, the importer rows   *)
-(* as <<agent, epoch index>> incl. unrelated agents and gaps, observation rows). *)
+(* a trace is the configuration (agents, which are imported, the Epoch rows of   *)
+(* the importer database as step indices, its ephemeris rows as <<agent, epoch   *)
+(* index>> incl. unrelated agents and gaps, its observation rows, the engines    *)
+(* with their sensors and target lists).                                         *)
+(* A trace is accepted iff TLC can walk it to its end; Why names, for the record *)
+(* at which a rejected trace is stuck, the formula of Importer.tla it breaks.    *)
 EXTENDS Importer, Json, IOUtils
 
 Traces == JsonDeserialize(IOEnv.TRACE_FILE)
@@ -12,29 +16,77 @@ Tr == Traces[tid]
 Rec == Tr[l]
 ToSet(seq) == {seq[i] : i \in DOMAIN seq}
 Pairs(seq) == {<<seq[i][1], seq[i][2]>> : i \in DOMAIN seq}
-Triples(seq) == {<<seq[i][1], seq[i][2], seq[i][3]>> : i \in DOMAIN seq}
+Triple(x) == <<x[1], x[2], x[3]>>
+Triples(seq) == {Triple(seq[i]) : i \in DOMAIN seq}
+\* engines logged as [[id, [sensors], [targets]], ...]
+EngOf(r, e) == r.engines[CHOOSE i \in DOMAIN r.engines : r.engines[i][1] = e]
 CfgOf(r) == [agents |-> ToSet(r.agents), imported |-> ToSet(r.imported), targets |-> ToSet(r.targets),
-             rows |-> Pairs(r.rows), obs |-> Triples(r.obs), nsteps |-> r.nsteps,
-             born |-> [a \in ToSet(r.agents) |-> LET i == CHOOSE j \in DOMAIN r.born : r.born[j][1] = a IN r.born[i][2]]]
+             epochs |-> ToSet(r.epochs), rows |-> Pairs(r.rows), obs |-> Triples(r.obs), nsteps |-> r.nsteps,
+             born |-> [a \in ToSet(r.agents) |-> LET i == CHOOSE j \in DOMAIN r.born : r.born[j][1] = a IN r.born[i][2]],
+             engines |-> {r.engines[i][1] : i \in DOMAIN r.engines},
+             sensorOf |-> [s \in ToSet(r.agents) \ ToSet(r.targets) |->
+                             LET i == CHOOSE j \in DOMAIN r.engines : s \in ToSet(r.engines[j][2]) IN r.engines[i][1]],
+             tracks |-> [e \in {r.engines[i][1] : i \in DOMAIN r.engines} |-> ToSet(EngOf(r, e)[3])]]
 IsEvent(e) == l <= Len(Tr) /\ Rec.ev = e /\ l' = l + 1 /\ UNCHANGED tid
 
 TraceInit == tid \in DOMAIN Traces /\ InitWith(CfgOf(Traces[tid][1])) /\ l = 2
 
 TBeginStep == IsEvent("BeginStep") /\ BeginStep /\ k' = Rec.k
-\* held logged as [[agent, source, epoch], ...] for every agent of the scenario
+\* held logged as [[agent, source, epoch, derived_ok], ...] for every imported agent of the scenario
 \* 4th field: the agent's derived Earth-fixed state belongs to the same epoch as the imported inertial state
 HeldMatch(h, seq) == \A i \in DOMAIN seq : h[seq[i][1]] = <<seq[i][2], seq[i][3]>> /\ seq[i][4]
 TImportOk == IsEvent("ImportOk") /\ ImportOk /\ HeldMatch(held', Rec.held)
 TImportMissing == IsEvent("ImportMissing") /\ ImportMissing
 TSkipImport == IsEvent("SkipImport") /\ SkipImport
-\* observations that reached each target's update: [[t, [[k, t, s], ...]], ...]
-ReachedMatch(r, seq) == \A i \in DOMAIN seq : r[seq[i][1]] = Triples(seq[i][2]) /\ Len(seq[i][2]) = Cardinality(Triples(seq[i][2]))
-TLoadObs == IsEvent("LoadObs") /\ LoadObs /\ ReachedMatch(reached', Rec.reached)
+\* one engine's assess(); what it loaded is logged but not bound: only what reaches the filters is (the statement is
+\* indifferent to WHICH engine carries an observation to the filter of its target)
+TEngineLoad == IsEvent("EngineLoad") /\ LoadObs(Rec.engine)
+\* observations that reached each target's update: [[t, [[k, t, s], ...]], ...]; multiplicities count
+Count(seq, o) == Cardinality({j \in DOMAIN seq : Triple(seq[j]) = o})
+ReachedMatch(r, seq) ==
+  \A i \in DOMAIN seq :
+    /\ \A o \in cfg.obs : o[2] = seq[i][1] => Count(seq[i][2], o) = r[o]
+    /\ \A j \in DOMAIN seq[i][2] : Triple(seq[i][2][j]) \in cfg.obs /\ seq[i][2][j][2] = seq[i][1]
+TLoadObs == IsEvent("LoadObs") /\ UpdateFilters /\ ReachedMatch(reached, Rec.reached)
+\* an engine whose load was not logged (an implementation that loads elsewhere) still takes its step of the specification
+TSilentLoad == l <= Len(Tr) /\ Rec.ev = "LoadObs" /\ LoadObsSome /\ UNCHANGED <<tid, l>>
 TEndStep == IsEvent("EndStep") /\ EndStep
 \* end of the run: the importer database file is byte-identical to what it was before
 TEndRun == IsEvent("EndRun") /\ Rec.unchanged /\ UNCHANGED vars
 
-TraceNext == TBeginStep \/ TImportOk \/ TSkipImport \/ TImportMissing \/ TLoadObs \/ TEndStep \/ TEndRun
+TraceNext == TBeginStep \/ TImportOk \/ TSkipImport \/ TImportMissing \/ TEngineLoad \/ TSilentLoad \/ TLoadObs \/ TEndStep \/ TEndRun
 TraceSpec == TraceInit /\ [][TraceNext]_tvars
-Accept == PrintT(<<"AT", tid, l, Len(Tr) + 1>>)
+
+\* diagnosis of the NEXT record against the current state (meaningful where the trace is stuck); the strings are kept
+\* short because TLC wraps printed values at 80 columns:
+\*   NoStaleState:epoch-absent-from-db      the run continued although the importer database has no such epoch at all
+\*   NoStaleState:no-record-for-agent       the run continued although a registered agent has no record at this epoch
+\*   ImportFaithful:not-this-epochs-record  an imported agent's state is not the database record of this epoch
+\*   ObsReachFilter:lost-cross-engine-obs   an observation whose sensor and target belong to different engines never arrived
+\*   ObsReachFilter:obs-lost / obs-more-than-once / obs-not-in-db
+WhyImportOk ==
+  IF pc # "registered" THEN "out-of-order"
+  ELSE IF ~Complete
+         THEN IF EpochAbsent(k) THEN "NoStaleState:epoch-absent-from-db"
+                                ELSE "NoStaleState:no-record-for-agent"
+         ELSE IF ~HeldMatch(AfterImport, Rec.held) THEN "ImportFaithful:not-this-epochs-record" ELSE "ok"
+WhyLoadObs ==
+  IF pc # "imported" THEN "out-of-order"
+  ELSE IF done # cfg.engines THEN "ok"      \* silent loads pending
+  ELSE LET seq == Rec.reached
+           lost == {o \in cfg.obs : \E i \in DOMAIN seq : o[2] = seq[i][1] /\ Count(seq[i][2], o) < reached[o]}
+           dup == {o \in cfg.obs : \E i \in DOMAIN seq : o[2] = seq[i][1] /\ Count(seq[i][2], o) > reached[o]}
+       IN IF lost # {} THEN (IF \E o \in lost : CrossEngine(o) THEN "ObsReachFilter:lost-cross-engine-obs"
+                                                              ELSE "ObsReachFilter:obs-lost")
+          ELSE IF dup # {} THEN "ObsReachFilter:obs-more-than-once"
+          ELSE IF ~ReachedMatch(reached, seq) THEN "ObsReachFilter:obs-not-in-db" ELSE "ok"
+Why ==
+  IF l > Len(Tr) THEN "end"
+  ELSE CASE Rec.ev = "ImportOk" -> WhyImportOk
+         [] Rec.ev = "ImportMissing" -> IF pc = "registered" /\ Complete THEN "raised-although-complete" ELSE "ok"
+         [] Rec.ev = "LoadObs" -> WhyLoadObs
+         [] Rec.ev = "EndRun" -> IF ~Rec.unchanged THEN "ImporterReadOnly:file-modified" ELSE "ok"
+         [] Rec.ev = "Crash" -> "crash"
+         [] OTHER -> "ok"
+Accept == PrintT(<<"AT", tid, l, Len(Tr) + 1, Why>>)
 =============================================================================
